@@ -22,7 +22,25 @@ var poisonPage = func() []byte {
 	return b
 }()
 
+// big buffers (legacy 8 MiB blocks) are poisoned / cleared / audited on their first 64 KiB and
+// last 4 KiB only: scenarios keep their payloads tiny, and a full 8 MiB memset per Put would
+// dominate the execution time.
+const bigBuf = 256 << 10
+
+func regions(b []byte) [][]byte {
+	if len(b) <= bigBuf {
+		return [][]byte{b}
+	}
+	return [][]byte{b[:64<<10], b[len(b)-(4<<10):]}
+}
+
 func fill(b []byte, v byte) {
+	for _, r := range regions(b) {
+		fill1(r, v)
+	}
+}
+
+func fill1(b []byte, v byte) {
 	if len(b) == 0 {
 		return
 	}
@@ -33,6 +51,17 @@ func fill(b []byte, v byte) {
 }
 
 func poisonIntact(b []byte) int {
+	base := 0
+	for _, r := range regions(b) {
+		if i := poisonIntact1(r); i >= 0 {
+			return base + i
+		}
+		base = len(b) - len(r) // offset of the next (last) region; only used for the message
+	}
+	return -1
+}
+
+func poisonIntact1(b []byte) int {
 	for off := 0; off < len(b); off += len(poisonPage) {
 		end := off + len(poisonPage)
 		if end > len(b) {
